@@ -278,6 +278,24 @@ impl ParserProp {
             ("right operand of >=", "$Zz >= {}".into(), Box::new(move |t| suiron::parse_subgoal(t).and_then(|g| arg0(g, 1)))),
             ("query argument", "q({})".into(), Box::new(move |t| suiron::parse_query(t).and_then(|g| arg0(g, 0)))),
             ("fact argument", "q({}).".into(), Box::new(|t| suiron::parse_rule(t).and_then(|r| match r.head { U::SComplex(v) => v.get(1).cloned().ok_or("no arg".to_string()), o => Err(format!("{}", o)) }))),
+            // the same positions with other legal spacing: no blank after the comma, blanks / a tab around the term
+            ("second argument, no blank after the comma", "f(a,{})".into(), Box::new(|t| suiron::parse_complex(t).and_then(|u| match u { U::SComplex(v) => v.get(2).cloned().ok_or("no arg".to_string()), o => Err(format!("{}", o)) }))),
+            ("first of two arguments, no blanks", "f({},a)".into(), Box::new(|t| suiron::parse_complex(t).and_then(|u| match u { U::SComplex(v) => v.get(1).cloned().ok_or("no arg".to_string()), o => Err(format!("{}", o)) }))),
+            ("third argument, no blanks", "f(a,b,{})".into(), Box::new(|t| suiron::parse_complex(t).and_then(|u| match u { U::SComplex(v) => v.get(3).cloned().ok_or("no arg".to_string()), o => Err(format!("{}", o)) }))),
+            ("argument with blanks around it", "f( {} )".into(), Box::new(|t| suiron::parse_complex(t).and_then(|u| match u { U::SComplex(v) => v.get(1).cloned().ok_or("no arg".to_string()), o => Err(format!("{}", o)) }))),
+            ("second argument after two blanks", "f(a,  {})".into(), Box::new(|t| suiron::parse_complex(t).and_then(|u| match u { U::SComplex(v) => v.get(2).cloned().ok_or("no arg".to_string()), o => Err(format!("{}", o)) }))),
+            ("second argument after a tab", "f(a,\t{})".into(), Box::new(|t| suiron::parse_complex(t).and_then(|u| match u { U::SComplex(v) => v.get(2).cloned().ok_or("no arg".to_string()), o => Err(format!("{}", o)) }))),
+            ("second goal argument, no blank", "g(a,{})".into(), Box::new(move |t| suiron::parse_subgoal(t).and_then(|g| arg0(g, 1)))),
+            ("second built-in argument, no blank", "print(a,{})".into(), Box::new(move |t| suiron::parse_subgoal(t).and_then(|g| arg0(g, 1)))),
+            ("second query argument, no blank", "q(a,{})".into(), Box::new(move |t| suiron::parse_query(t).and_then(|g| arg0(g, 1)))),
+            ("second fact argument, no blank", "q(a,{}).".into(), Box::new(|t| suiron::parse_rule(t).and_then(|r| match r.head { U::SComplex(v) => v.get(2).cloned().ok_or("no arg".to_string()), o => Err(format!("{}", o)) }))),
+            ("second list element, no blank", "[a,{}]".into(), Box::new(|t| suiron::parse_linked_list(t).and_then(|u| match u { U::SLinkedList { next, .. } => match *next { U::SLinkedList { term, .. } => Ok(*term), o => Err(format!("{}", o)) }, o => Err(format!("{}", o)) }))),
+            ("list element with blanks around it", "[ {} ]".into(), Box::new(|t| suiron::parse_linked_list(t).and_then(|u| match u { U::SLinkedList { term, .. } => Ok(*term), o => Err(format!("{}", o)) }))),
+            ("list element before a tail variable", "[{} | $Tt]".into(), Box::new(|t| suiron::parse_linked_list(t).and_then(|u| match u { U::SLinkedList { term, .. } => Ok(*term), o => Err(format!("{}", o)) }))),
+            ("argument of a function", "$Zz = add({}, 1)".into(), Box::new(move |t| suiron::parse_subgoal(t).and_then(|g| arg0(g, 1)).and_then(|u| match u { U::SFunction { terms, .. } => terms.get(0).cloned().ok_or("no arg".to_string()), o => Err(format!("not a function: {}", o)) }))),
+            ("second argument of a function, no blank", "$Zz = add(1,{})".into(), Box::new(move |t| suiron::parse_subgoal(t).and_then(|g| arg0(g, 1)).and_then(|u| match u { U::SFunction { terms, .. } => terms.get(1).cloned().ok_or("no arg".to_string()), o => Err(format!("not a function: {}", o)) }))),
+            ("argument of a goal in a rule body", "h :- g(a, {}), k.".into(), Box::new(|t| suiron::parse_rule(t).and_then(|r| match r.body { suiron::Goal::OperatorGoal(suiron::Operator::And(gs)) => match gs.get(0) { Some(suiron::Goal::ComplexGoal(U::SComplex(v))) => v.get(2).cloned().ok_or("no arg".to_string()), _ => Err("unexpected body".to_string()) }, o => Err(format!("unexpected body {}", o)) }))),
+            ("right operand of = in a rule body", "h :- $Zz = {}, k.".into(), Box::new(move |t| suiron::parse_rule(t).and_then(|r| match r.body { suiron::Goal::OperatorGoal(suiron::Operator::And(gs)) => match gs.get(0) { Some(g) => arg0(g.clone(), 1), None => Err("empty body".to_string()) }, o => Err(format!("unexpected body {}", o)) }))),
         ];
         let mut seen: Vec<(&str, Result<Term, String>)> = vec![];
         for (name, tmpl, get) in &contexts {
@@ -417,10 +435,14 @@ impl ParserProp {
                 }
                 let depth0 = round == 0 && square == 0 && !quote;
                 let next_is_space = chars.get(i + 1) == Some(&' ');
-                let can_break_here = if depth0 {
-                    // documented continuation characters at the end of a line: - , ; =
-                    (ch == '-' && i > 0 && chars[i - 1] == ':') || ch == ',' || ch == ';' || (ch == '=' && next_is_space && i > 0 && chars[i - 1] == ' ') || (ch == '-' && next_is_space && i > 0 && chars[i - 1] == ' ')
-                } else { class2 && ch == ',' };
+                // documented continuation characters at the end of a line: - , ; =
+                // (`=` also as the last character of the infixes == <= >=; `-` as the infix minus or the end of :-)
+                let prev = if i > 0 { chars[i - 1] } else { ' ' };
+                let infix_end = (ch == '=' && next_is_space && (prev == ' ' || prev == '=' || prev == '<' || prev == '>')) || (ch == '-' && next_is_space && prev == ' ');
+                let cont_char = !quote && ((ch == '-' && prev == ':') || ch == ',' || ch == ';' || infix_end);
+                // class 1: only outside parentheses and brackets; class 2: anywhere (inside argument lists,
+                // lists and parenthesised groups of goals too)
+                let can_break_here = cont_char && (depth0 || class2);
                 if can_break_here && chance(s, 1, 3) {
                     if depth0 && chance(s, 1, 4) && !line_has_open { file.push_str("  "); file.push_str(&comment_text(s)); comment = true; }
                     file.push('\n');
